@@ -74,7 +74,8 @@ PROBES = {
     "C11": [("C11_l", "quick", "toasty tile-allsky --projection plate-carree(-galactic): every tile pixel is the map cell containing its sky point", 600),
             ("C11_m", "quick", "toasty tile-allsky at depth 0 vs depth 1 for the planetary projections", 600),
             ("C11_n", "quick", 'toasty tile-allsky --crop=V,H vs --crop=V,H,V,H: sampler arrays and tile pixels', 600),
-            ("C11_o", "quick", 'toasty tile-allsky --colorspace-processing none on a map with an ICC profile, four projections: stored pixel values', 600)],
+            ("C11_o", "quick", 'toasty tile-allsky --colorspace-processing none on a map with an ICC profile, four projections: stored pixel values', 600),
+            ("C11_p", "quick", 'ChunkedPlateCarreeSampler over a stand-in chunked map with non-square chunks: every in-chunk point gets the map cell containing it, nothing outside is filled', 600)],
     "C12": [("C12_l", "thorough", "toast_pixel_for_point alternating between the two coordinate systems", 900),
             ("C12_m", "quick", "toast_pixel_for_point at depths 1..22 against a double-precision oracle", 900),
             ("C12_n", "quick", 'tile and pixel lookup over all longitudes, depths 1..: containment, nesting, 2pi periodicity, brute-force nearest centre', 900),
